@@ -5,23 +5,27 @@ import os
 
 from harness.common import facts as F
 from . import factsx
-from .gen import gen_case, targeted_cases, ascii_lower, ascii_upper, COOKIE_SAFE
+from .gen import (gen_case, targeted_cases, ascii_lower, ascii_upper, COOKIE_SAFE, NONBOOL, EXPLICIT_OTHER, CALLBACKS,
+                  SAFE_KINDS, pyval)
 from . import extra
 
 ID = 'C12'
 HERE = os.path.dirname(os.path.abspath(__file__))
 CASES = {'quick': 6000, 'thorough': 200000}
 PARALLEL = True
-RULE = ('option combinations (require_csrf True/False/None/other; set_default_csrf_options absent or with any subset of '
-        'its arguments incl. token/header None or empty, custom safe methods, check_origin, allow_no_origin, callback '
-        'truth table; exception views; session, legacy-session and cookie storage; trusted origins from settings or a '
-        'caller list) x sequences of 1-4 requests sharing one trusted-origins list (method, scheme, Host/port or '
+RULE = ('option combinations (require_csrf True/False/None or a non-bool 0/1/\'\'/str; set_default_csrf_options absent or with '
+        'any subset of its arguments incl. token/header None or empty, custom safe methods given as tuple/list/set/frozenset/'
+        'generator/iterator, check_origin / allow_no_origin / require_csrf as bool or truthy/falsy non-bool, callbacks returning '
+        'True/False/None/0/1/str/[]; exception views; 0-3 other views with their own require_csrf in the same application; '
+        'session, legacy-session and cookie storage (cookie value plain or quoted); trusted origins from settings or a caller '
+        'list/tuple; the two functions called through pyramid.csrf or the deprecated pyramid.session aliases) x sequences of 1-4 requests sharing one trusted-origins list (method, scheme, Host/port or '
         'SERVER_NAME, Origin/Referer variants incl. null, lists, upper case, default ports, userinfo, brackets; token in '
         'header/body/query; equal, prefix, case-changed, empty, non-ASCII tokens); non-trivial = in at least one request of '
         'the sequence the wrapper reached the origin/token checks (checking in force, unsafe method, callback true); '
         'plus two further case kinds: url (urlparse_m vs urllib.parse.urlparse; non-trivial = ValueError or non-empty netloc; '
         'thorough: every string of length <= 4 over a 12-character alphabet, exhaustive) and seq (2-8 requests by 1-3 clients '
-        'through the router, each client carrying the session / csrf cookies it was handed; non-trivial = a check was reached); '
+        'through the router, each client carrying the session / csrf cookies it was handed, the view body optionally calling '
+        'pyramid.csrf.get_csrf_token / new_csrf_token (show / rotate the token); non-trivial = a check was reached); '
         'distinct by full case')
 ASSUMPTIONS = [
     'header names and trusted-origin patterns contain only characters whose str.upper()/lower() is the ASCII mapping',
@@ -38,12 +42,13 @@ ASSUMPTIONS = [
 ]
 TRUSTED = ['translator harness/c12/translate.py: its PRIMITIVE TABLE (which Python leaf expression / idiom / result constructor '
            'means which primitive of coq/Model/C12.v; ~60 entries, listed in its docstring) and its mechanical statement-to-term '
-           'rules; the control flow of is_same_domain, the three storage policies, check_csrf_token, check_csrf_origin (with '
-           '_fail) and csrf_view (with its wrapper) is NOT trusted: it is regenerated into coq/Gen/Facts_C12_prog.v every run '
-           'and proved equal to the reference model',
+           'rules; the control flow of is_same_domain, strings_differ, the three storage policies, the session object\'s '
+           'get/new_csrf_token, the module-level get/new_csrf_token, check_csrf_token, check_csrf_origin (with _fail) and '
+           'csrf_view (with its wrapper), and the data flow set_default_csrf_options -> DefaultCSRFOptions (translate_cfg.py) is '
+           'NOT trusted: it is regenerated into coq/Gen/Facts_C12_prog.v every run and proved equal to the reference model',
            'hand-written reference model coq/Model/C12.v (the theorems are about it and, through gen_*_is_model, about the '
-           'regenerated program); shape pins remain for the untranslated leaves util.bytes_/text_/strings_differ, '
-           'settings.aslist(_cronly), DefaultCSRFOptions, CookieSession.get/new_csrf_token',
+           'regenerated program); shape pins remain for the untranslated leaves util.bytes_/text_, '
+           'settings.aslist(_cronly) and the session plumbing (manage_accessed/changed, CookieSession.__init__/changed/_set_cookie)',
            'WebOb 1.8 fragments modelled by hand: headers._trans_name, Request.host/domain/host_port, MultiDict last-value '
            'lookup (validated by correspondence only)',
            'urllib.parse.urlsplit fragment modelled by hand (characterised by the C12_urlparse_* theorems, exhaustive '
@@ -52,18 +57,24 @@ TRUSTED = ['translator harness/c12/translate.py: its PRIMITIVE TABLE (which Pyth
            'hmac.compare_digest modelled as byte equality; CPython UTF-8/latin-1 encoders modelled by Lib/Utf8.encode']
 TECHNIQUE = ('Coq proof about a Gallina program whose control flow is translated from the Python source on every run '
              '(harness/c12/translate.py -> coq/Gen/Facts_C12_prog.v) and proved equal to a hand-written reference model that is '
-             'parametric in the three repairs (regenerated facts), + extracted-model differential correspondence through a real '
+             'parametric in the three repairs (regenerated facts); the configuration directive\'s data flow into the options '
+             'object is regenerated too (harness/c12/translate_cfg.py); + extracted-model differential correspondence through a real '
              'non-autocommit Configurator/router (random statement order and include nesting), per-client request sequences '
+             'incl. view bodies that show / rotate the token through the public API '
              'and an exhaustive small-scope sweep of the urlsplit fragment')
 LEVEL_TEXT = ('Machine-checked theorems for all configurations, requests and histories, stated about the program regenerated '
-              'from src/pyramid/{util,csrf,viewderivers}.py on this run (gen_view_outcome, gen_check_csrf_origin, '
-              'gen_check_csrf_token, gen_<policy>_get/new/check, gen_is_same_domain = the reference model): the protected body '
+              'from src/pyramid/{util,csrf,viewderivers,session,config/security}.py on this run (gen_view_outcome, '
+              'gen_check_csrf_origin, gen_check_csrf_token, gen_<policy>_get/new/check, gen_sess_get/new, gen_api_get/new, '
+              'gen_is_same_domain, gen_strings_differ, gen_directive_options = the reference model): the protected body '
               'runs iff the declarative token and origin conditions hold (csrf_gate), rejections are '
               'BadCSRFToken/BadCSRFOrigin (rejection_is_400), the body never runs on a failed check for any value of the repair '
               'parameters, is_same_domain has the exact documented characterisation, the query string, the statement order of '
               'the configuration and earlier requests (shared trusted-origins list; interleaved clients with minting storage) '
               'do not influence the verdict, a token is minted exactly when none is held and an empty token is rejected when '
-              'none is stored, the urlsplit fragment extracts scheme/authority of scheme://authority[/...] and raises exactly on '
+              'none is stored, every argument of set_default_csrf_options reaches the option of the same name (omitted = documented '
+              'default), a view body calling get_csrf_token / new_csrf_token never changes the verdict of its own request, '
+              'new_csrf_token installs the fresh token and a token handed out before the rotation is refused afterwards, '
+              'the urlsplit fragment extracts scheme/authority of scheme://authority[/...] and raises exactly on '
               'bad brackets; refutations for the unrepaired parameter values.')
 LEVEL_NOTE = ('Trusted: Coq kernel; the translator\'s primitive table and statement rules (fail-closed: anything outside '
               'subset/table is a broken tie, never a guess); the leaf primitives of Model/C12.v incl. the WebOb/urllib fragments '
@@ -85,6 +96,16 @@ def facts(src):
         gen = '\n'.join((sp['glue'] if sp.get('glue') else 'Definition %s %s :=\n  %s.\n' % (sp['gen'], sp['sig'], fb.get(sp['gen'], 'TRANSLATOR_FAILED')))
                         for sp in translate.FUNCS)
         tproblems, tsummary = ['translator crashed: %r' % (e,)], {}
+    # the configuration side: data flow set_default_csrf_options -> DefaultCSRFOptions -> the registered options object
+    from . import translate_cfg
+    try:
+        cgen, cproblems, csummary = translate_cfg.translate_tree(src)
+    except Exception as e:
+        cgen = 'Definition %s %s :=\n  %s.\n' % (translate_cfg.GEN, translate_cfg.SIG, translate_cfg.FALLBACK_BODY)
+        cproblems, csummary = ['translator(cfg) crashed: %r' % (e,)], {}
+    gen = gen + '\n' + cgen
+    tproblems = tproblems + cproblems
+    tsummary = dict(tsummary, **csummary)
     build.write_if_changed(os.path.join(build.COQ, 'Gen', 'Facts_C12_prog.v'), translate.HEADER + gen)
     problems += tproblems
     summary.update({'translated:' + k: x for k, x in tsummary.items()})
@@ -136,6 +157,8 @@ def valid(case):
             for s_ in case['steps']:
                 if not (isinstance(s_['client'], int) and 0 <= s_['client'] < len(case['clients'])):
                     return False
+                if s_.get('action') not in (None, 'get', 'new'):
+                    return False
                 if s_['req']['stored'] is not None or not _valid_req(case['config'], s_['req']):
                     return False
                 for k, v in s_['req']['headers'] + s_['req']['body']:
@@ -143,13 +166,22 @@ def valid(case):
                         return False
             return True
         cfg = case['config']
-        if cfg['explicit'] not in (True, False, None, 'other'):
+        ex_ = cfg['explicit']
+        if not (ex_ is None or isinstance(ex_, bool) or (isinstance(ex_, str) and ex_ in EXPLICIT_OTHER)):
+            return False
+        for dv in cfg.get('decoys', []):
+            if not (dv['explicit'] is None or isinstance(dv['explicit'], bool)) or dv['pos'] not in ('before', 'after'):
+                return False
+        if len(cfg.get('decoys', [])) > 3:
             return False
         if cfg['storage'] not in ('legacy', 'session', 'cookie') or not isinstance(cfg['exception_only'], bool):
             return False
         d = cfg['defaults']
         if d is not None:
-            if set(d) - {'require_csrf', 'token', 'header', 'safe_methods', 'check_origin', 'allow_no_origin', 'callback'}:
+            if set(d) - {'require_csrf', 'token', 'header', 'safe_methods', 'check_origin', 'allow_no_origin', 'callback',
+                          'safe_kind'}:
+                return False
+            if ('safe_kind' in d) and ('safe_methods' not in d or d['safe_kind'] not in SAFE_KINDS):
                 return False
             for k in ('token', 'header'):
                 if k in d and d[k] is not None and not (isinstance(d[k], str) and d[k].isascii()
@@ -158,9 +190,9 @@ def valid(case):
             if 'safe_methods' in d and not _is_str_list(d['safe_methods']):
                 return False
             for k in ('require_csrf', 'check_origin', 'allow_no_origin'):
-                if k in d and not isinstance(d[k], bool):
+                if k in d and not (isinstance(d[k], bool) or (isinstance(d[k], str) and d[k] in NONBOOL)):
                     return False
-            if d.get('callback') not in (None, 'true', 'false', 'auth'):
+            if d.get('callback') is not None and d.get('callback') not in CALLBACKS:
                 return False
         s = cfg['settings']
         if not (s is None or isinstance(s, str) or _is_str_list(s)):
@@ -178,6 +210,10 @@ def valid(case):
         if not all(_ascii_case_ok(p) for p in pats):
             return False
         if not isinstance(case['raises'], bool) or not case['reqs'] or len(case['reqs']) > 6:
+            return False
+        if case.get('caller_kind', 'list') not in ('list', 'tuple') or case.get('via', 'csrf') not in ('csrf', 'session'):
+            return False
+        if case.get('caller_kind') == 'tuple' and case['caller'] is None:
             return False
         for r in case['reqs']:
             if not (isinstance(r['method'], str) and r['method'] and r['method'].isascii()):
@@ -251,6 +287,11 @@ def setup(tier):
     from pyramid import csrf as csrfmod
     from pyramid.session import BaseCookieSessionFactory
     from pyramid.exceptions import BadCSRFOrigin, BadCSRFToken
+    import warnings
+    with warnings.catch_warnings():
+        warnings.simplefilter('ignore')
+        import pyramid.session as session_mod
+    _impl['session_mod'] = session_mod
     # assumption check: no code point < 256 decomposes (NFKC) into something containing / ? # @ :
     for c in range(128, 256):
         if any(x in unicodedata.normalize('NFKC', chr(c)) for x in '/?#@:'):
@@ -259,6 +300,9 @@ def setup(tier):
                  SessionFactory=BaseCookieSessionFactory, BadCSRFOrigin=BadCSRFOrigin, BadCSRFToken=BadCSRFToken,
                  urlsplit=urllib.parse.urlsplit, urlparse=urllib.parse.urlparse)
     extra.register_evidence_patch(ID)
+
+
+CB_RET = {'ret-none': None, 'ret-0': 0, 'ret-1': 1, 'ret-str': 'no', 'ret-list': []}
 
 
 def _callback(kind, calls):
@@ -271,6 +315,8 @@ def _callback(kind, calls):
             return True
         if kind == 'false':
             return False
+        if kind in CB_RET:
+            return CB_RET[kind]                      # truthy / falsy values that are not bool
         return 'Authorization' not in request.headers
     return cb
 
@@ -280,6 +326,8 @@ def _cb_value(kind, req):
         return True
     if kind == 'false':
         return False
+    if kind in CB_RET:
+        return bool(CB_RET[kind])
     return not any(ascii_upper(k) == 'AUTHORIZATION' for k, _ in req['headers'])
 
 
@@ -323,6 +371,11 @@ def _app(cfg):
 
     def view(context, request):
         log['ran'] += 1
+        # the view body may use the public token API (seq cases): show the token / rotate it
+        if log.get('action') == 'get':
+            log['api'] = I['csrf'].get_csrf_token(request)
+        elif log.get('action') == 'new':
+            log['api'] = I['csrf'].new_csrf_token(request)
         return I['Response']('ok')
 
     def st_session(c):
@@ -333,9 +386,12 @@ def _app(cfg):
 
     def st_defaults(c):
         if d is not None:
-            kw = {k: v for k, v in d.items() if k != 'callback'}
+            kw = {k: pyval(v) for k, v in d.items() if k not in ('callback', 'safe_kind')}
             if 'safe_methods' in kw:
-                kw['safe_methods'] = tuple(kw['safe_methods'])
+                sm = list(kw['safe_methods'])
+                kind = d.get('safe_kind', 'tuple')
+                kw['safe_methods'] = {'tuple': tuple, 'list': list, 'set': set, 'frozenset': frozenset, 'iter': iter,
+                                      'gen': lambda l: (x for x in l)}[kind](sm)
             if d.get('callback') is not None:
                 kw['callback'] = _callback(d['callback'], log['cb'])
             c.set_default_csrf_options(**kw)
@@ -343,7 +399,20 @@ def _app(cfg):
     def st_view(c):
         vkw = {}
         if cfg['explicit'] is not None:
-            vkw['require_csrf'] = 'yes' if cfg['explicit'] == 'other' else cfg['explicit']
+            vkw['require_csrf'] = 'yes' if cfg['explicit'] == 'other' else pyval(cfg['explicit'])
+        decoys = cfg.get('decoys', [])
+
+        def add_decoys(pos):
+            for i, dv in enumerate(decoys):
+                if dv['pos'] != pos:
+                    continue
+
+                def decoy(context, request):
+                    log['decoy'] = log.get('decoy', 0) + 1
+                    return I['Response']('decoy')
+                dkw = {} if dv['explicit'] is None else {'require_csrf': dv['explicit']}
+                c.add_view(decoy, name='decoy%d' % i, **dkw)
+        add_decoys('before')
         if cfg['exception_only']:
             def raiser(context, request):
                 raise Boom()
@@ -351,6 +420,7 @@ def _app(cfg):
             c.add_view(view, context=Boom, exception_only=True, **vkw)
         else:
             c.add_view(view, **vkw)
+        add_decoys('after')
 
     stmts = {'session': st_session, 'policy': st_policy, 'defaults': st_defaults, 'view': st_view}
     prog = cfg.get('program') or {'order': ['session', 'policy', 'defaults', 'view'], 'depth': {}}
@@ -409,7 +479,7 @@ def _environ(cfg, r):
         state = {} if r['stored'] is None else {'_csrft_': r['stored']}
         cookies.append('session=' + _Ser().dumps([1.0, 1.0, state]).decode('ascii'))
     elif r['stored'] is not None:
-        cookies.append('csrf_token=' + r['stored'])
+        cookies.append('csrf_token="%s"' % r['stored'] if r.get('cookie_quoted') else 'csrf_token=' + r['stored'])
     if cookies:
         env['HTTP_COOKIE'] = '; '.join(cookies)
     body = up.urlencode([tuple(kv) for kv in r['body']]).encode('ascii')
@@ -465,7 +535,7 @@ def _effective(cfg):
     d = cfg['defaults']
     if d is None:
         return 'csrf_token', 'X-CSRF-Token', False
-    return d.get('token', 'csrf_token'), d.get('header', 'X-CSRF-Token'), d.get('allow_no_origin', False)
+    return d.get('token', 'csrf_token'), d.get('header', 'X-CSRF-Token'), pyval(d.get('allow_no_origin', False))
 
 
 def _held(cfg, jar):
@@ -525,6 +595,7 @@ def _run_seq(case):
             setc.extend(v for k, v in headers if k.lower() == 'set-cookie')
 
         log['ran'] = 0
+        log['action'] = step.get('action')
         del log['cb'][:]
         _cur['fresh'] = 'fresh-%d' % i
         try:
@@ -548,6 +619,7 @@ def _run_seq(case):
             view = _exc_obs(e)
         finally:
             _cur['fresh'] = FRESH
+            log['action'] = None
         out.append([view, status[0], _canon_held(cfg, _held(cfg, jar), known)])
     return out
 
@@ -567,7 +639,8 @@ def run_impl(case):
     cfg = case['config']
     app, registry, log, policy = _app(cfg)
     token, header, allow = _effective(cfg)
-    shared = None if case['caller'] is None else list(case['caller'])
+    shared = None if case['caller'] is None else (tuple if case.get('caller_kind') == 'tuple' else list)(case['caller'])
+    fmod = I['session_mod'] if case.get('via') == 'session' else I['csrf']
     steps = []
     for r in case['reqs']:
         # (a) through the router
@@ -606,7 +679,7 @@ def run_impl(case):
         # (b) check_csrf_token directly
         try:
             req = _mk_request(cfg, r, registry)
-            res = I['csrf'].check_csrf_token(req, token, header, raises=case['raises'])
+            res = fmod.check_csrf_token(req, token, header, raises=case['raises'])
             tv = [1] if res is True else [0] if res is False else ['ret', repr(res)]
         except I['BadCSRFToken']:
             tv = [0] if case['raises'] else ['raised-despite-raises-false']
@@ -615,14 +688,16 @@ def run_impl(case):
         # (c) check_csrf_origin directly, sharing one list object over the sequence
         try:
             req = _mk_request(cfg, r, registry)
-            res = I['csrf'].check_csrf_origin(req, trusted_origins=shared, allow_no_origin=allow, raises=case['raises'])
+            res = fmod.check_csrf_origin(req, trusted_origins=shared, allow_no_origin=allow, raises=case['raises'])
             ov = [1] if res is True else [0] if res is False else ['ret', repr(res)]
         except I['BadCSRFOrigin'] as e:
             ov = [0, _reason(str(e.detail))] if case['raises'] else ['raised-despite-raises-false']
         except Exception as e:
             ov = _exc_obs(e)
         steps.append([view, status[0], len(log['cb']), tv, ov])
-    return [steps, shared if shared is not None else []]
+    if log.get('decoy'):
+        steps.append(['decoy-view-ran', log.pop('decoy')])
+    return [steps, list(shared) if shared is not None else []]
 
 
 # ------------------------------------------------------------ wire
@@ -695,7 +770,7 @@ def to_wire(case):
             w = _req_wire(cfg, st['req'])
             w[3] = []
             w[4] = (UNGUESSABLE + str(i)) if cfg['storage'] == 'legacy' else 'fresh-%d' % i
-            steps.append([st['client'], w])
+            steps.append([st['client'], w, {None: 0, 'get': 1, 'new': 2}[st.get('action')]])
         return [2, _cfg_wire(cfg), [[k, _opt(s)] for k, s in enumerate(case['clients'])], steps]
     cfg = case['config']
     d = cfg['defaults']
@@ -704,11 +779,13 @@ def to_wire(case):
     else:
         def arg(k, f=lambda x: x):
             return [f(d[k])] if k in d else []
-        dw = [[arg('require_csrf'), arg('token', _opt), arg('header', _opt), arg('safe_methods', list),
-               arg('check_origin'), arg('allow_no_origin'), d.get('callback') is not None]]
+        def truth(x):
+            return bool(pyval(x))
+        dw = [[arg('require_csrf', truth), arg('token', _opt), arg('header', _opt), arg('safe_methods', list),
+               arg('check_origin', truth), arg('allow_no_origin', truth), d.get('callback') is not None]]
     ex = cfg['explicit']
     s = cfg['settings']
-    cw = [[] if ex in (None, 'other') else [ex], dw, cfg['exception_only'],
+    cw = [[ex] if isinstance(ex, bool) else [], dw, cfg['exception_only'],
           {'legacy': 0, 'session': 1, 'cookie': 2}[cfg['storage']],
           [] if s is None else [s] if isinstance(s, str) else list(s),
           _defaults_first(cfg)]
@@ -882,7 +959,7 @@ def _reached(case, r):
     if d is None:
         req, tok, hdr, safe, cb = False, 'csrf_token', 'X-CSRF-Token', ['GET', 'HEAD', 'OPTIONS', 'TRACE'], None
     else:
-        req, tok, hdr = d.get('require_csrf', True), d.get('token', 'csrf_token'), d.get('header', 'X-CSRF-Token')
+        req, tok, hdr = pyval(d.get('require_csrf', True)), d.get('token', 'csrf_token'), d.get('header', 'X-CSRF-Token')
         safe, cb = d.get('safe_methods', ['GET', 'HEAD', 'OPTIONS', 'TRACE']), d.get('callback')
     enabled = (ex is True or (ex is not False and req and not cfg['exception_only'])) and bool(tok or hdr)
     return bool(enabled and r['method'] not in safe and _cb_value(cb, r))
@@ -898,6 +975,8 @@ def kinds(case, obs):
         try:
             prev = {}
             for st, o in zip(case['steps'], obs):
+                if st.get('action') and o[0] == [0]:
+                    ks.append('seq-body-' + st['action'])
                 ks.append('seq-ran' if o[0] == [0] and _reached(case, st['req']) else 'seq-ran-unchecked' if o[0] == [0]
                           else 'seq-bad-token' if o[0][0] == 2 else 'seq-bad-origin' if o[0][0] == 1 else 'seq-raised')
                 before = prev.get(st['client'], 'init')
@@ -915,7 +994,20 @@ def kinds(case, obs):
           'stmt-nesting-%d' % max([0] + list((case['config'].get('program') or {}).get('depth', {}).values())),
           'stmt-policy-%s' % ('default' if (case['config'].get('program') or {}).get('default_policy')
                                and case['config']['storage'] == 'legacy' else 'explicit'),
-          'caller-list' if case['caller'] is not None else 'settings-list']
+          'caller-%s' % case.get('caller_kind', 'list') if case['caller'] is not None else 'settings-list',
+          'via-%s-module' % case.get('via', 'csrf'), 'decoy-views-%d' % len(case['config'].get('decoys', []))]
+    d_ = case['config']['defaults'] or {}
+    if isinstance(case['config']['explicit'], str):
+        ks.append('explicit-nonbool-' + case['config']['explicit'])
+    for k_ in ('require_csrf', 'check_origin', 'allow_no_origin'):
+        if isinstance(d_.get(k_), str):
+            ks.append('default-nonbool-flag')
+    if d_.get('callback') in CB_RET:
+        ks.append('callback-nonbool-return')
+    if 'safe_kind' in d_:
+        ks.append('safe-methods-as-' + d_['safe_kind'])
+    if any(r_.get('cookie_quoted') for r_ in case['reqs']):
+        ks.append('cookie-quoted')
     try:
         for r, st in zip(case['reqs'], obs[0]):
             view = st[0]
